@@ -163,7 +163,9 @@ def _worker(args):
                 st["exhaustive_cases"] += 1
                 if len(st["harness_errors"]) > 3:
                     break
-        if n_examples > 0 and hasattr(prop, "strategy"):
+        if n_examples > 0 and hasattr(prop, "strategy") and _atheris_job(pid, tier, idx):
+            _run_atheris(pid, tier, seed, idx, n_examples, st)
+        elif n_examples > 0 and hasattr(prop, "strategy"):
             import hypothesis
             from hypothesis import HealthCheck, Phase, given, settings
 
@@ -184,6 +186,67 @@ def _worker(args):
     st["buckets"] = {f"{k[0]}\x00{k[1]}": v for k, v in st["buckets"].items()}
     st["worker"] = idx
     return st
+
+
+ATHERIS_JOBS = 12          # of the 64 jobs of a thorough run, for the properties in atheris_job.TARGETS
+
+
+def _atheris_job(pid, tier, idx):
+    from .atheris_job import TARGETS
+
+    if pid not in TARGETS or os.environ.get("VF_ATHERIS", "1") == "0":
+        return False
+    if tier != "thorough" and os.environ.get("VF_ATHERIS") != "force":
+        return False
+    if idx >= ATHERIS_JOBS:
+        return False
+    try:
+        sys.path.index(os.path.join(VERIF, ".deps"))
+    except ValueError:
+        pass
+    import importlib.util
+
+    return importlib.util.find_spec("atheris") is not None
+
+
+def _run_atheris(pid, tier, seed, idx, n_examples, st):
+    """Coverage-guided slice of the exploration: a subprocess (libFuzzer ends the process itself)."""
+    import shutil
+    import subprocess
+
+    outdir = os.path.join(VERIF, "out", "atheris")
+    os.makedirs(outdir, exist_ok=True)
+    out_path = os.path.join(outdir, f"{pid}-{tier}-{seed}-{idx}-{os.getpid()}.json")
+    try:
+        proc = subprocess.run([sys.executable, "-m", "vf.atheris_job", pid, tier, str(seed), str(idx),
+                               str(n_examples), out_path], cwd=VERIF, capture_output=True, text=True,
+                              timeout=3600)
+        if not os.path.exists(out_path):
+            st["harness_errors"].append("atheris job produced no result (rc=%s):\n%s\n%s"
+                                        % (proc.returncode, proc.stdout[-1500:], proc.stderr[-1500:]))
+            return
+        with open(out_path) as f:
+            res = json.load(f)
+    except subprocess.TimeoutExpired:
+        st["harness_errors"].append("atheris job exceeded its wall-clock cap (inconclusive)")
+        return
+    finally:
+        shutil.rmtree(out_path + ".corpus", ignore_errors=True)
+        if os.path.exists(out_path):
+            os.remove(out_path)
+    st["evaluations"] += res["evaluations"]
+    st["discarded"] += res["discarded"]
+    st["labels"].update(res["labels"])
+    st["labels"]["atheris-inputs"] += res.get("atheris_inputs", 0)
+    st["hashes"] |= set(res["hashes"])
+    st["samples"] += res["samples"][: max(0, 2 - len(st["samples"]))]
+    st["harness_errors"] += res["harness_errors"]
+    for ks, b in res["buckets"].items():
+        k = tuple(ks.split("\x00"))
+        if k not in st["buckets"]:
+            st["buckets"][k] = b
+        else:
+            st["buckets"][k]["count"] += b["count"]
 
 
 def _shrink_proc(pid, tier, hseed, n_examples, rule, sig, out_path, start_case):
@@ -409,7 +472,11 @@ def write_evidence(prop, pid, tier, seed, merged, buckets, new, known_hits, repl
             "workers": nworkers,
             "known_finding_hits": dict(known_hits),
             "violation_buckets": [{"rule": k[0], "sig": k[1], "cases": b["count"]} for k, b in new],
-            "generator": "Hypothesis %s, @seed(VERIF_SEED*1000+worker), database=None" % _hyp_version(),
+            "generator": "Hypothesis %s, @seed(VERIF_SEED*1000+worker), database=None" % _hyp_version()
+                         + ("; atheris/libFuzzer campaigns over the same strategy (fuzz_one_input), -seed=VERIF_SEED*1000+job+1, "
+                            "%d cases from %d inputs" % (merged["labels"].get("engine-atheris", 0),
+                                                         merged["labels"].get("atheris-inputs", 0))
+                            if merged["labels"].get("engine-atheris") else ""),
         },
         "assumptions": list(getattr(prop, "ASSUMPTIONS", [])),
         "wall_s": round(wall, 2),
